@@ -88,8 +88,15 @@ TraceRSweep ==
    /\ Check(Good /\ ev.what = "trailing" /\ TrailOk(cur, ev.p) => ev.r = "ok" /\ ev.offset = ev.offset0 /\ ev.n = NEntries(cur) /\ ev.same)
    /\ UNCHANGED <<cur, opened>>
 
+\* the method table: converting a 16-bit code to a method and back is the identity for all 65 536 codes; the build declares exactly
+\* the methods the open decision treats as supported; the named methods carry their APPNOTE codes
+TraceRMethodTable ==
+   /\ IsEvent("RMethodTable")
+   /\ Check(ev.bad = <<>> /\ {ev.supported[i] : i \in 1..Len(ev.supported)} = Supported /\ ev.named = <<0, 8, 12, 93>>)
+   /\ UNCHANGED <<cur, opened>>
+
 TraceInit == l = 1 /\ cur = NoLayout /\ opened = FALSE /\ TLCSet(1, 0)
-TraceNext == TraceReset \/ TraceROpen \/ TraceREntry \/ TraceRName \/ TraceRAbsent \/ TraceRIndexOut \/ TraceRPw \/ TraceRDecode \/ TraceRSweep
+TraceNext == TraceReset \/ TraceROpen \/ TraceREntry \/ TraceRName \/ TraceRAbsent \/ TraceRIndexOut \/ TraceRPw \/ TraceRDecode \/ TraceRSweep \/ TraceRMethodTable
 TraceSpec == TraceInit /\ [][TraceNext]_tvars
 TraceAccepted ==
    LET d == TLCGet("stats").diameter IN
